@@ -27,7 +27,7 @@ ASSUMPTIONS = [
     "injected garbage is of the promptly-rejectable kind (>= one header long, wrong prefix); input that makes the client wait for a declared length is C06/C17's subject",
     "'holds an open connection' = the simulated socket was accepted and the client has not yet called close()/abort() on it nor lost it",
 ]
-PROBES = ["c07.loop_passes_take_time", "c07.write_error_inside_subscriber", "c07.slow_close", "c07.connect_during_slow_close", "c07.frame_then_fin", "c07.fin_at_accept", "c07.double_reset_same_instant", "c07.fault_during_reconnect", "c07.fault_at_retry_timer", "c07.unencodable_while_down",
+PROBES = ["c07.slow_disconnect_notification", "c07.connection_made_inside_slow_reset", "c07.loop_passes_take_time", "c07.write_error_inside_subscriber", "c07.slow_close", "c07.connect_during_slow_close", "c07.frame_then_fin", "c07.fin_at_accept", "c07.double_reset_same_instant", "c07.fault_during_reconnect", "c07.fault_at_retry_timer", "c07.unencodable_while_down",
           "c07.raising_subscriber", "c07.api_class", "c07.probe_delivered"]
 
 
@@ -58,6 +58,7 @@ def generate(rng, index: int, tier: str) -> dict:
     gen = rng.choice([4, 5])
     api = rng.random() < 0.3
     slow_conn_sub = False
+    work_down = 0.0
     depth = rng.randint(1, 4 if tier == "quick" else 8)
     lat = rng.choice([0.0, G.TICK, 2.0**-7, 2.0**-5])
     knobs = {"latency": lat, "first_packet_id": rng.choice([0, 254]), "seg": rng.choice([{"mode": "whole"}, {"mode": "random", "seed": rng.getrandbits(16), "max": 3}])}
@@ -79,6 +80,12 @@ def generate(rng, index: int, tier: str) -> dict:
             # of every connection then lasts that long
             tl.append({"at": 0.0, "op": "user.sock_conn_subscribe", "work": rng.choice([0.125, 0.5, 0.5, 2.5]), "raises": rng.random() < 0.4})
             slow_conn_sub = True
+            if rng.random() < 0.5:
+                # ... and over "disconnected" as well: every reset of the connection then stays that long in its notification
+                # fan-out, not connected, before it starts the reconnection - faults and timers land inside that window
+                work_down = rng.choice([0.5, 1.5, 1.5, 2.5])
+                tl[-1]["work_down"] = work_down
+                tl[-1]["work"] = rng.choice([0.0, 0.0, 0.125])
         if rng.random() < 0.5:
             tl.append({"at": 0.0, "op": "user.sock_subscribe", "name": "replier", "sub_yields": rng.choice([0, 0, 1]),
                        "after_yields": rng.choice([0, 0, 3, 12, 40]), "after_sleep": rng.choice([0.0, 0.0, 2.0**-6, 0.25, 1.5]),
@@ -94,7 +101,21 @@ def generate(rng, index: int, tier: str) -> dict:
     stale_timer = None  # instant at which a delayed connect scheduled by an earlier recovery path fires
     for d in range(depth):
         kind = rng.choice(FAULTS)
+        if work_down and stale_timer is None and rng.random() < 0.4:
+            kind = "drain_error_at_connect"
         gap = rng.choice([0.0, G.EPS, lat, lat + G.EPS, 0.5, 2.0 - G.EPS, 2.0, 2.0 + G.EPS, recon_lat, recon_lat + lat, 3.0])
+        if stale_timer is not None and work_down and stale_timer - 1.0 >= t and rng.random() < 0.7:
+            # the peer closes shortly before that delayed connect fires: the reset is still in its (slow) notification fan-out
+            # when the timer brings up another connection, and the peer closes that one too before the first reset is over
+            t1 = stale_timer - rng.choice([0.25, 0.5, 1.0])
+            t2 = stale_timer + rng.choice([0.125, 0.25, 0.5, 1.0])
+            tl.append({"at": t1 - G.EPS, "op": "net.fates", "fates": [{"kind": "accept", "latency": 0.0}] * 3})
+            tl.append({"at": t1, "op": "net.fin"})
+            tl.append({"at": t2, "op": rng.choice(["net.fin", "net.fin", "net.rst"])})
+            t = t2 + work_down
+            stale_timer = None
+            recon_lat = 0.0
+            continue
         if stale_timer is not None and rng.random() < 0.6:
             # a disconnect that is still in progress when that delayed connect fires
             kind = "slow_close"
@@ -175,7 +196,9 @@ def generate(rng, index: int, tier: str) -> dict:
             # (the reconnect that follows the failed drain sometimes takes exactly as long as the delayed retry armed by the
             # same failure: the new connection comes up in the instant that stale timer fires)
             l2 = rng.choice([0.0, 0.125, 2.0, 2.0 - G.EPS, 2.0 + G.EPS])
-            if rng.random() < 0.5:
+            if work_down:
+                l2 = rng.choice([0.0, 0.125])
+            elif rng.random() < 0.5:
                 # loop passes take (a little) time in this run: the stale timer may then fire in the middle of what the new
                 # connection's establishment started, a few passes after it
                 knobs["iter_cost"] = 2.0**-16
@@ -188,8 +211,10 @@ def generate(rng, index: int, tier: str) -> dict:
             else:
                 tl.append({"at": t + lat + 2 * G.EPS, "op": "user.send", "msg": msgs[mi], "policy": "idem"})
                 mi += 1
-            stale_timer = t + lat + acc_l + 2.0
-            t += lat + acc_l + 0.25
+            # (with a slow "disconnected" subscriber the reset that follows the RST and the failed drain's own reset each stay
+            # that long in their fan-out; the delayed retry is armed when the second one is over)
+            stale_timer = t + lat + acc_l + 2.0 + 2 * work_down
+            t += lat + acc_l + 0.25 + 2 * work_down
             recon_lat = 0.0
             continue
         elif kind == "slow_close":
@@ -328,6 +353,13 @@ def execute(sc: dict) -> dict:
     fired = [e for e in trace.events if e[2] == "fault.fired"]
     if sc["knobs"].get("iter_cost"):
         probes["c07.loop_passes_take_time"] = 1
+    if any(st.get("work_down") for st in sc["timeline"] if st["op"] == "user.sock_conn_subscribe"):
+        probes["c07.slow_disconnect_notification"] = 1
+        # a connection established while an earlier reset is still inside its notification fan-out
+        downs = [e[1] for e in trace.events if e[2] == "sub.call" and e[3].get("k") == "slowconn" and e[3].get("args") == (False,)]
+        wd = max(st.get("work_down", 0.0) for st in sc["timeline"] if st["op"] == "user.sock_conn_subscribe")
+        if any(d < e[1] < d + wd for d in downs for e in trace.events if e[2] == "conn.made"):
+            probes["c07.connection_made_inside_slow_reset"] = 1
     if any(e[2] == "sub.reply_raised" for e in trace.events) or (api and any(st.get("fields", {}).get("error") for st in sc["timeline"] if st["op"] == "console.set") and fired):
         probes["c07.write_error_inside_subscriber"] = 1
     if len({e[1] for e in fired}) < len(fired):
